@@ -406,6 +406,17 @@ EXTRA_CASES = [
     ("return-dots", "@@\n@@\n-return oldErr(...)\n+return newErr(...)\n",
      "package p\n\nfunc f() error {\n\tif x {\n\t\treturn oldErr()\n\t}\n\treturn oldErr(1, 2)\n}\n"),
     ("composite-empty", "@@\n@@\n-Old{...}\n+New{...}\n", "package p\n\nvar a = Old{}\nvar b = Old{1, 2}\nvar c = []Old{{}, {3}}\n"),
+    # what the patch does not mention around an elision: the label of a loop matched by "for ... {", the spread of a call's last argument
+    ("for-dots-labeled", "@@\n@@\n for ... {\n-  x()\n+  y()\n   ...\n }\n",
+     "package p\n\nfunc h1(n int) {\n\tfor i := 0; i < n; i++ {\n\t\tx()\n\t}\n}\n\nfunc h2(n int) {\nouter:\n\tfor i := 0; i < n; i++ {\n\t\tx()\n\t\tcontinue outer\n\t}\n}\n\n"
+     "func h3(m map[int]int) {\n\tprepare()\nscan:\n\tfor k := range m {\n\t\tx()\n\t\tif k > 0 {\n\t\t\tbreak scan\n\t\t}\n\t}\n}\n\nfunc h4() {\n\tfor {\n\t\tx()\n\t}\n}\n\n"
+     "func h5() {\nagain:\n\tfor {\n\t\tx()\n\t\tgoto again\n\t}\n}\n"),
+    ("spread-context", "@@\n@@\n log.Println(...)\n-x()\n+y()\n",
+     "package p\n\nfunc h(p []any, args ...any) {\n\tlog.Println(1, 2)\n\tx()\n}\n\nfunc k(p []any, args ...any) {\n\tlog.Println(append(p, args...)...)\n\tx()\n}\n\nfunc l(args ...any) {\n\tlog.Println(args...)\n\tx()\n}\n"),
+    ("spread-pair", "@@\n@@\n-f(...)\n+g(...)\n",
+     "package p\n\nfunc h(xs []int) {\n\tf(1, 2)\n\tf(1, xs...)\n\tf(xs...)\n\tf()\n}\n"),
+    ("spread-both", "@@\nvar s expression\n@@\n-f(..., s...)\n+g(..., s...)\n",
+     "package p\n\nfunc h(xs []int) {\n\tf(1, xs)\n\tf(1, xs...)\n\tf(xs...)\n\tf(2, 3, mk()...)\n}\n"),
     ("unary-star", "@@\nvar p expression\n@@\n-*p = nil\n+reset(p)\n",
      "package p\n\nfunc h() {\n\t*a = nil\n\t*b.c = nil\n\t**d = nil\n\ta = nil\n\t*a = 0\n}\n"),
     ("slice-expr", "@@\nvar s, n expression\n@@\n-s[:n]\n+head(s, n)\n",
